@@ -1,0 +1,232 @@
+//go:build verif
+
+// Fault-injection backend for the /verif harness (property C29: block connection is
+// crash-consistent).  Never built without the `verif` tag.
+//
+// Backend "verifcrashdb" is goleveldb with every durable write counted:
+//
+//	Set, SetSync, Delete, DeleteSync        one write each
+//	Batch.Write                             one write (the batch is atomic); empty batches are not counted
+//	TxKV.Commit (BeginTx)                   one write
+//
+// The counter is process wide (all databases opened with this backend share it) and starts
+// when VerifCrashArm is called.  With VERIF_CRASH_AT=N (N >= 1) the process terminates with
+// os.Exit(77) immediately after the N-th counted write has been handed to LevelDB, i.e. the
+// surviving directories contain exactly the first N writes.  With VERIF_CRASH_LOG=<file> every
+// counted write is appended to <file> as
+//
+//	<n> <dbname> <kind> n=<ops> S:<hexkey>=<hexvalue-prefix> D:<hexkey> ...
+//
+// (at most verifCrashLogOps operations are listed; keys are cut at 72 bytes, values at 40).
+package db
+
+import (
+	"bufio"
+	"encoding/hex"
+	"fmt"
+	"os"
+	"strconv"
+	"sync"
+)
+
+const (
+	verifCrashBackend  = "verifcrashdb"
+	verifCrashExitCode = 77
+	verifCrashLogOps   = 400
+)
+
+type verifCrashOp struct {
+	del   bool
+	key   []byte
+	value []byte
+}
+
+var verifCrash struct {
+	mu    sync.Mutex
+	armed bool
+	count int64
+	at    int64
+	logf  *os.File
+	logw  *bufio.Writer
+}
+
+func init() {
+	registerDBCreator(verifCrashBackend, func(name string, dir string, cache int) (DB, error) {
+		g, err := NewGoLevelDB(name, dir, cache)
+		if err != nil {
+			return nil, err
+		}
+		return &verifCrashDB{GoLevelDB: g, name: name}, nil
+	}, false)
+}
+
+// VerifCrashArm starts counting (counter reset to 0); reads VERIF_CRASH_AT / VERIF_CRASH_LOG.
+func VerifCrashArm() {
+	verifCrash.mu.Lock()
+	defer verifCrash.mu.Unlock()
+	verifCrash.armed = true
+	verifCrash.count = 0
+	verifCrash.at = 0
+	if v := os.Getenv("VERIF_CRASH_AT"); v != "" {
+		if n, err := strconv.ParseInt(v, 10, 64); err == nil {
+			verifCrash.at = n
+		}
+	}
+	verifCrashCloseLog()
+	if p := os.Getenv("VERIF_CRASH_LOG"); p != "" {
+		if f, err := os.OpenFile(p, os.O_CREATE|os.O_WRONLY|os.O_APPEND, 0o644); err == nil {
+			verifCrash.logf = f
+			verifCrash.logw = bufio.NewWriter(f)
+		}
+	}
+}
+
+func verifCrashCloseLog() {
+	if verifCrash.logw != nil {
+		_ = verifCrash.logw.Flush()
+	}
+	if verifCrash.logf != nil {
+		_ = verifCrash.logf.Close()
+	}
+	verifCrash.logw, verifCrash.logf = nil, nil
+}
+
+// VerifCrashDisarm stops counting (writes after this are neither counted nor logged).
+func VerifCrashDisarm() {
+	verifCrash.mu.Lock()
+	defer verifCrash.mu.Unlock()
+	verifCrash.armed = false
+	verifCrashCloseLog()
+}
+
+// VerifCrashCount returns the number of durable writes counted since VerifCrashArm.
+func VerifCrashCount() int64 {
+	verifCrash.mu.Lock()
+	defer verifCrash.mu.Unlock()
+	return verifCrash.count
+}
+
+func verifCut(b []byte, n int) string {
+	if len(b) > n {
+		b = b[:n]
+	}
+	return hex.EncodeToString(b)
+}
+
+// verifCrashGate serialises counted writes: `do` performs the write, then the write is counted,
+// logged and — at the chosen count — the process exits.
+func verifCrashGate(db, kind string, ops []verifCrashOp, do func() error) error {
+	verifCrash.mu.Lock()
+	defer verifCrash.mu.Unlock()
+	err := do()
+	if !verifCrash.armed || err != nil {
+		return err
+	}
+	verifCrash.count++
+	if verifCrash.logw != nil {
+		w := verifCrash.logw
+		fmt.Fprintf(w, "%d %s %s n=%d", verifCrash.count, db, kind, len(ops))
+		for i, o := range ops {
+			if i >= verifCrashLogOps {
+				break
+			}
+			if o.del {
+				fmt.Fprintf(w, " D:%s", verifCut(o.key, 72))
+			} else {
+				fmt.Fprintf(w, " S:%s=%s", verifCut(o.key, 72), verifCut(o.value, 40))
+			}
+		}
+		fmt.Fprintln(w)
+		_ = w.Flush()
+	}
+	if verifCrash.at > 0 && verifCrash.count == verifCrash.at {
+		if verifCrash.logf != nil {
+			_ = verifCrash.logf.Sync()
+		}
+		os.Exit(verifCrashExitCode)
+	}
+	return nil
+}
+
+type verifCrashDB struct {
+	*GoLevelDB
+	name string
+}
+
+func (d *verifCrashDB) Set(key []byte, value []byte) error {
+	return verifCrashGate(d.name, "set", []verifCrashOp{{key: key, value: value}}, func() error { return d.GoLevelDB.Set(key, value) })
+}
+
+func (d *verifCrashDB) SetSync(key []byte, value []byte) error {
+	return verifCrashGate(d.name, "setsync", []verifCrashOp{{key: key, value: value}}, func() error { return d.GoLevelDB.SetSync(key, value) })
+}
+
+func (d *verifCrashDB) Delete(key []byte) error {
+	return verifCrashGate(d.name, "delete", []verifCrashOp{{del: true, key: key}}, func() error { return d.GoLevelDB.Delete(key) })
+}
+
+func (d *verifCrashDB) DeleteSync(key []byte) error {
+	return verifCrashGate(d.name, "deletesync", []verifCrashOp{{del: true, key: key}}, func() error { return d.GoLevelDB.DeleteSync(key) })
+}
+
+func (d *verifCrashDB) NewBatch(sync bool) Batch {
+	return &verifCrashBatch{Batch: d.GoLevelDB.NewBatch(sync), db: d}
+}
+
+func (d *verifCrashDB) BeginTx() (TxKV, error) {
+	tx, err := d.GoLevelDB.BeginTx()
+	if err != nil {
+		return nil, err
+	}
+	return &verifCrashTx{TxKV: tx, db: d}, nil
+}
+
+type verifCrashBatch struct {
+	Batch
+	db  *verifCrashDB
+	ops []verifCrashOp
+}
+
+func verifClone(b []byte, n int) []byte {
+	if len(b) > n {
+		b = b[:n]
+	}
+	return append([]byte(nil), b...)
+}
+
+func (b *verifCrashBatch) Set(key, value []byte) {
+	b.Batch.Set(key, value)
+	b.ops = append(b.ops, verifCrashOp{key: verifClone(key, 72), value: verifClone(value, 40)})
+}
+
+func (b *verifCrashBatch) Delete(key []byte) {
+	b.Batch.Delete(key)
+	b.ops = append(b.ops, verifCrashOp{del: true, key: verifClone(key, 72)})
+}
+
+func (b *verifCrashBatch) Reset() {
+	b.Batch.Reset()
+	b.ops = b.ops[:0]
+}
+
+func (b *verifCrashBatch) Write() error {
+	if len(b.ops) == 0 {
+		return b.Batch.Write()
+	}
+	return verifCrashGate(b.db.name, "batch", b.ops, b.Batch.Write)
+}
+
+type verifCrashTx struct {
+	TxKV
+	db  *verifCrashDB
+	ops []verifCrashOp
+}
+
+func (t *verifCrashTx) Set(key []byte, value []byte) error {
+	t.ops = append(t.ops, verifCrashOp{key: verifClone(key, 72), value: verifClone(value, 40)})
+	return t.TxKV.Set(key, value)
+}
+
+func (t *verifCrashTx) Commit() error {
+	return verifCrashGate(t.db.name, "txcommit", t.ops, t.TxKV.Commit)
+}
